@@ -25,6 +25,9 @@ import (
 // replaySlashing read the chain head).  Their witnesses stay in the corpus;
 // a reappearance is an ordinary (unlisted) violation.
 
+// open finding: see /verif/fixes/C06_side_chain_fork_nil_parent_header.md
+const findSideNilParent = "side-chain import of a fork of two or more blocks that are not stored yet panics in checkAndUpgradeValidatorsToYouV5 (parent header not in the database)"
+
 type Hit struct {
 	What    string   `json:"what"`
 	Block   uint64   `json:"block"`
@@ -233,6 +236,10 @@ func randHistory(r *vf.Rng, maxBlocks int) *History {
 		}
 		h.Blocks = append(h.Blocks, b)
 	}
+	h.SideFrom = r.Intn(nb)
+	if r.Chance(60) {
+		h.SideFrom = 0
+	}
 	for left := nb; left > 0; {
 		k := 1 + r.Heavy(6)
 		if k > left {
@@ -259,6 +266,8 @@ func runHistory(h *History, reps int) (obs []*BlockObs, crashed string) {
 	defer w.stop()
 	obs = w.run(reps)
 	w.headMoved(obs)
+	w.carried(obs)
+	w.sideChain(obs)
 	return obs, ""
 }
 
@@ -267,12 +276,15 @@ func digest(obs []*BlockObs) string {
 		O    *BlockObs
 		Evs  []EvObs
 		Head string
+		Carr []string
+		Inc  []string
+		Side string
 	}
 	var ps []proj
 	for _, o := range obs {
 		c := *o
 		c.ReexecDiff = nil
-		ps = append(ps, proj{&c, o.Evs, o.HeadMovedDiff})
+		ps = append(ps, proj{&c, o.Evs, o.HeadMovedDiff, o.CarriedDiff, o.Incoherent, o.SideErr})
 	}
 	b, _ := json.Marshal(ps)
 	s := sha256.Sum256(b)
@@ -351,6 +363,32 @@ func judge(h *History, obs []*BlockObs, crashed string, v *verdicts) {
 			add(&v.hits, "a block whose header commitment was altered is still accepted by Process + ValidateState", o, "altered field: "+t)
 		}
 		v.counts["tamper_rejected"] += o.TamperRejected
+		if len(o.CarriedDiff) > 0 {
+			v.counts["carried_statedb_differs"]++
+			add(&v.hits, "executing consecutive blocks on ONE carried StateDB (as side-chain verification does) differs from executing each on a fresh StateDB", o, strings.Join(o.CarriedDiff, "; "))
+		} else {
+			v.counts["carried_statedb_identical"]++
+		}
+		if len(o.Incoherent) > 0 {
+			v.counts["object_cache_incoherent"]++
+			add(&v.hits, "after a block the StateDB's staking-record cache disagrees with its own staking trie", o, strings.Join(o.Incoherent, "; "))
+		}
+		if o.SideErr != "" {
+			if h.SideRaw && strings.Contains(o.SideErr, "@checkAndUpgradeValidatorsToYouV5") {
+				v.counts["finding_side_chain_nil_parent"]++
+				add(&v.known, findSideNilParent, o, o.SideErr)
+			} else {
+				v.counts["side_chain_import_rejected"]++
+				add(&v.hits, "the built chain is accepted block by block but refused by the side-chain import path (insertSidechain / verifyAllSideChainBlocks)", o, o.SideErr)
+			}
+		} else if o.Number == 1 {
+			if o.SideSkipped {
+				v.counts["side_chain_skipped_lookback_inside_fork"]++
+			} else {
+				v.counts["side_chain_import_accepted"]++
+				v.counts["side_chain_blocks"] += o.SideLen
+			}
+		}
 		if o.HeadMovedDiff != "" {
 			v.counts["head_moved_differs"]++
 			add(&v.hits, "re-executing a block on its own parent state depends on the position of the chain head", o, o.HeadMovedDiff)
@@ -697,7 +735,7 @@ func replay(file string) {
 		v.hits = append(v.hits, Hit{What: "the same history gave different blocks, receipts or logs on a second run"})
 	}
 	for _, o := range obs {
-		fmt.Printf("block %d built=%v imported=%v err=%q txs=%d slash=%d bytes reexec=%v headmoved=%q\n", o.Number, o.Built, o.Imported, o.ImportErr, o.NTx, len(o.SlashData)/2, o.ReexecDiff, o.HeadMovedDiff)
+		fmt.Printf("block %d built=%v imported=%v err=%q txs=%d slash=%d bytes reexec=%v headmoved=%q carried=%v incoherent=%v side=%q\n", o.Number, o.Built, o.Imported, o.ImportErr, o.NTx, len(o.SlashData)/2, o.ReexecDiff, o.HeadMovedDiff, o.CarriedDiff, o.Incoherent, o.SideErr)
 	}
 	if len(v.hits) > 0 {
 		fmt.Printf("ORACLE VIOLATION: %s (block %d): %s\n", v.hits[0].What, v.hits[0].Block, v.hits[0].Detail)
